@@ -258,10 +258,14 @@ func FindAllBuildFiles(config *core.Configuration, rootPath, prefix string) <-ch
 			} else if cli.ContainsString(name, config.Parse.ExperimentalDir) {
 				return filepath.SkipDir // Skip the experimental directory if it's set
 			}
-			// Check against blacklist
-			for _, dir := range config.Parse.BlacklistDirs {
-				if dir == basename || strings.HasPrefix(name, dir) {
-					return filepath.SkipDir
+			// Check against blacklist. Entries name directories, either by name or by path from the repo root;
+			// they must match whole path components, and never files (SkipDir on a file would skip its siblings).
+			if isDir {
+				for _, dir := range config.Parse.BlacklistDirs {
+					dir = strings.TrimRight(dir, "/")
+					if dir == basename || dir == name || strings.HasPrefix(name, dir+"/") {
+						return filepath.SkipDir
+					}
 				}
 			}
 			return nil
